@@ -5,6 +5,7 @@ package main
 
 import (
 	"context"
+	"encoding/json"
 	"fmt"
 	"os"
 	"path/filepath"
@@ -14,6 +15,7 @@ import (
 	"strings"
 	"sync"
 	"time"
+	"unicode/utf8"
 
 	"github.com/anz-bank/sysl/pkg/arrai/relmod"
 	"github.com/anz-bank/sysl/pkg/parse"
@@ -25,7 +27,7 @@ import (
 )
 
 type replay struct {
-	Kind  string `json:"kind"` // corpus | gen | direct
+	Kind  string `json:"kind"` // corpus | gen | direct | payload (Text = one return payload, normalized alone)
 	Seed  uint64 `json:"seed,omitempty"` // direct: the module is genDirect(seed)
 	File  string `json:"file,omitempty"`
 	Text  string `json:"text,omitempty"`
@@ -153,6 +155,14 @@ type caseResult struct {
 
 func main() {
 	logrus.SetLevel(logrus.PanicLevel)
+	if common.IsWorker() { // another process: the modifiers of a few payloads, in the order this process hands them over
+		common.ServeWorker(func(line []byte) interface{} {
+			var rq modsReq
+			json.Unmarshal(line, &rq)
+			return modsReply{Mods: modsOf(rq.Payloads)}
+		})
+		return
+	}
 	c := common.Setup("C17")
 	defer c.Finish()
 	repo := os.Getenv("VERIF_REPO")
@@ -164,14 +174,28 @@ func main() {
 		"every third generated case has a chain of depth 5-9 with >= 2 siblings per level; some have their source contexts stripped as in a " +
 		"re-loaded compiled model; or a module built directly as protobuf from a seed, with the well-formed shapes the parser does not " +
 		"produce: numbered loops, empty alt / action / payload, untyped parameters, several constraints, list / map / one-of types, " +
-		"attributes on every statement kind, one spine of depth 5-8 with >= 2 siblings per level); relmod.Normalize runs twice on it; distinct = distinct source text; non-trivial = the module has at least " +
-		"one statement nested under a block statement"
+		"attributes on every statement kind, one spine of depth 5-8 with >= 2 siblings per level, numeric / nested / empty annotation values, " +
+		"source contexts on elements and annotations); relmod.Normalize runs twice on it; distinct = distinct source text; non-trivial = the module has at least " +
+		"one statement nested under a block statement. Payload stream: one return payload normalized alone - fixed shapes (every listed primitive, cut points, " +
+		"duplicate names), payloads written from a meaning (status, type, modifiers, name-value pairs: what the row must carry is known by construction), " +
+		"mutations of those and word soup; non-trivial = the payload has a type or attributes"
 
 	if c.Replay != "" {
 		var rp replay
 		if err := common.LoadReplay(c.Replay, &rp); err != nil {
 			fmt.Fprintln(os.Stderr, err)
 			os.Exit(3)
+		}
+		if rp.Kind == "payload" {
+			o := observePayload(rp.Text)
+			judgePayload(c, rp.Text, nil, o)
+			crossProcessModifiers(c)
+			c.Count(rp.Text, true)
+			fmt.Printf("replay kind=payload text=%q outcome=%s %s failures=%d\n", rp.Text, o.kind, o.msg, len(c.Res.Failures))
+			for _, f := range c.Res.Failures {
+				fmt.Println("  ", f.Key, f.What)
+			}
+			return
 		}
 		m, err := compile(rp, repo)
 		if err != nil {
@@ -217,6 +241,9 @@ func main() {
 	inputs = append(inputs, &caseResult{rp: replay{Kind: "gen", Text: "A:\n    E:\n        if a:\n            if b:\n                if c:\n                    if d:\n                        x\n                    y1\n                    y2\n"}})
 	inputs = append(inputs, &caseResult{rp: replay{Kind: "gen", Text: "A:\n    E:\n        if a:\n            if b:\n                one of:\n                    c1:\n                        x\n                    c2:\n                        y\n                    c3:\n                        z\n"}})
 	inputs = append(inputs, &caseResult{rp: replay{Kind: "corpus", File: "pkg/parse/tests/import_proto_JSON.sysl"}})
+	// two fixed specifications for the payload reader: listed primitives / names that begin with one; a name given twice
+	inputs = append(inputs, &caseResult{rp: replay{Kind: "gen", Text: "A:\n    !type T0:\n        x <: int\n    E:\n        return ok <: int64\n        return 200 <: sequence of datetime [~hdr]\n        return ok <: integer\n"}})
+	inputs = append(inputs, &caseResult{rp: replay{Kind: "gen", Text: "A:\n    !type T0:\n        x <: int\n    E:\n        return ok <: T0 [k=\"1\", k=\"2\"]\n"}})
 	for _, f := range files[:nCorpus] {
 		inputs = append(inputs, &caseResult{rp: replay{Kind: "corpus", File: f}})
 	}
@@ -265,9 +292,9 @@ func main() {
 Require Import Verif.Relmod.Model Verif.Relmod.Run Verif.Gen.RelmodShape Verif.Base.Harness.
 Definition At := Build_attrs. Definition PT := Build_ptype. Definition Pa := Build_param. Definition Ep := Build_endpoint.
 Definition Co := Build_constr. Definition Fi := Build_field. Definition Td := Build_typedecl. Definition Vi := Build_view.
-Definition Ap := Build_app. Definition R := mk. Definition R2 := mk2. Definition T := true. Definition F := false.
-Definition SL := SLeaf. Definition SB := SBlock. Definition SA := SAlt.`
-	footer := `Definition M := Eval vm_compute in mismatches (c17_ok child_index_mode alt_index_mode) cases. Print M.`
+Definition Ap := Build_app. Definition R := mk. Definition R2 := mk2. Definition RX := mkx. Definition T := true. Definition F := false.
+Definition SL := SLeaf. Definition SB := SBlock. Definition SA := SAlt. Definition An := Build_anno. Definition Sc := Build_srcctx.`
+	footer := `Definition M := Eval vm_compute in mismatches (c17_ok child_index_mode alt_index_mode payload_grammar) cases. Print M.`
 	cs := c.NewCases("C17", header, "c17_case", footer, 12)
 
 	for _, cr := range inputs {
@@ -311,6 +338,109 @@ Definition SL := SLeaf. Definition SB := SBlock. Definition SA := SAlt.`
 		}
 	}
 	cs.Close()
+
+	// ---- payload stream: one return payload, normalized alone
+	nValid, nMut, nSoup := 170, 150, 150
+	if c.Thorough() {
+		nValid, nMut, nSoup = 2500, 2500, 2500
+	}
+	if c.Search {
+		nValid, nMut, nSoup = nValid*3, nMut*3, nSoup*3
+	}
+	type payIn struct {
+		text    string
+		meaning *payMeaning
+		kind    string
+		obs     payObs
+	}
+	var pays []*payIn
+	for _, p := range fixedPayloads {
+		pays = append(pays, &payIn{text: p, kind: "fixed"})
+	}
+	var valid []string
+	for i := 0; i < nValid; i++ {
+		t, m := genPayloadText(c.Rng)
+		mm := m
+		pays = append(pays, &payIn{text: t, meaning: &mm, kind: "from-meaning"})
+		valid = append(valid, t)
+	}
+	for i := 0; i < nMut; i++ {
+		if t := mutate(c.Rng, valid[c.Rng.Intn(len(valid))]); payloadInScope(t) {
+			pays = append(pays, &payIn{text: t, kind: "mutated"})
+		}
+	}
+	for i := 0; i < nSoup; i++ {
+		if t := genSoup(c.Rng); payloadInScope(t) {
+			pays = append(pays, &payIn{text: t, kind: "soup"})
+		}
+	}
+	t1 := time.Now()
+	var wg2 sync.WaitGroup
+	for _, pi := range pays {
+		wg2.Add(1)
+		go func(pi *payIn) {
+			defer wg2.Done()
+			sem <- struct{}{}
+			defer func() { <-sem }()
+			pi.obs = observePayload(pi.text)
+		}(pi)
+	}
+	wg2.Wait()
+	fmt.Fprintf(os.Stderr, "c17: %d payloads normalized alone %.1fs\n", len(pays), time.Since(t1).Seconds())
+	pfooter := `Definition M := Eval vm_compute in mismatches (c17_pay_ok payload_grammar) cases. Print M.`
+	pcs := c.NewCases("C17pay", header, "c17_pay_case", pfooter, 250)
+	seenPay := map[string]bool{}
+	for _, pi := range pays {
+		if seenPay[pi.text] {
+			continue
+		}
+		seenPay[pi.text] = true
+		c.Count("payload:"+pi.text, strings.ContainsAny(pi.text, "<[") || pi.obs.ret.Type != nil)
+		c.Hist("payload:" + pi.kind + ":" + pi.obs.kind)
+		judgePayload(c, pi.text, pi.meaning, pi.obs)
+		if term, ok := payCaseTerm(pi.text, pi.obs); ok {
+			pcs.Add(term, replay{Kind: "payload", Text: pi.text})
+		} else {
+			c.Hist("payload:not-projectable")
+		}
+	}
+	pcs.Close()
+	crossProcessModifiers(c)
+}
+
+// the payload stream keeps to non-empty (an empty payload is not parsed at all), valid UTF-8 (a protobuf string is)
+// texts of the modelled fragment
+func payloadInScope(t string) bool { return t != "" && utf8.ValidString(t) && inFragment(t) }
+
+// judgePayload: the property for one return payload - never a crash; a payload written from a meaning must be
+// accepted and its row must carry exactly that meaning
+func judgePayload(c *common.Ctx, text string, m *payMeaning, o payObs) {
+	rp := replay{Kind: "payload", Text: text}
+	if o.kind == "panic" {
+		c.Fail("crash:"+o.site, fmt.Sprintf("relmod.Normalize panics in %s on `return %s`: %s", o.site, text, o.msg), rp)
+		return
+	}
+	if m == nil {
+		if mm, ok := expectationOf(text); ok {
+			m = &mm
+		} else {
+			return
+		}
+	}
+	if o.kind == "err" {
+		key, why := "refused:valid-payload", "a payload of the documented form status <: type [attributes]"
+		if m.typ.uses(shadowedPrims) {
+			key, why = "refused:listed-primitive", "a primitive the payload grammar itself lists"
+		} else if m.typ.uses(primPrefixedNames) {
+			key, why = "refused:primitive-prefixed-name", "a type whose name begins with the name of a primitive"
+		}
+		c.Fail(key, fmt.Sprintf("relmod.Normalize refuses `return %s` (%s): %s", text, why, o.msg), rp)
+		return
+	}
+	got := obsStmtDetail(relmod.Statement{StmtRet: o.ret})
+	if want := m.detail(payApp); got != want {
+		c.Fail("ret:contents", fmt.Sprintf("`return %s`: the statement row carries %s, the payload says %s", text, got, want), rp)
+	}
 }
 
 // payBad: is this return payload one the embedded payload grammar refuses? The grammar is outside the Coq model
